@@ -208,6 +208,14 @@ def lower_modern_syntax(tree: ast.Module) -> ast.Module:
                     return ast.copy_location(ast.Compare(left=r, ops=[op()], comparators=[l]), n)
             return n
 
+        def visit_BinOp(self, n: ast.BinOp):
+            # `c + x` / `c * x` with a numeric literal c: the literal on the right (two operands commute exactly)
+            self.generic_visit(n)
+            num = lambda e: isinstance(e, ast.Constant) and isinstance(e.value, (int, float)) and not isinstance(e.value, bool)  # noqa: E731
+            if isinstance(n.op, (ast.Add, ast.Mult)) and num(n.left) and not num(n.right):
+                n.left, n.right = n.right, n.left
+            return n
+
         def visit_If(self, n: ast.If):
             self.generic_visit(n)
             if n.orelse:
@@ -497,6 +505,24 @@ class Program:
             self._index(mi)
             self.modules[name] = mi
         self._role_tables()
+        self._canonical_locals()
+
+    # ------------------------------------------------------------------
+    def _canonical_locals(self) -> None:
+        """The rules name a few locals of the anchored functions (count, start, end, limits, duration, ...).
+        A maintainer may call them anything: each is identified by the role it plays (how it is defined) and
+        renamed, in place, to the name the rules use - see LOCAL_ROLES."""
+        for qual, roles in LOCAL_ROLES.items():
+            mod, _, rest = qual.partition(":")
+            mi = self.modules.get(mod)
+            fi = mi.functions.get(rest) if mi else None
+            if fi is None:
+                continue
+            new = rename_by_role(fi, roles)
+            if new is not fi:
+                # splice the renamed body into the tree the module keeps
+                fi.node.body = new.node.body
+                fi.node.args = new.node.args
 
     # ------------------------------------------------------------------
     def _index(self, mi: ModuleInfo) -> None:
@@ -2310,6 +2336,135 @@ def lower_partials(fi: FuncInfo) -> FuncInfo:
         return fi
     node = ast.fix_missing_locations(T().visit(node))
     return FuncInfo(fi.module, fi.qual, node, fi.cls)
+
+
+def rename_by_role(fi: FuncInfo, roles: list) -> FuncInfo:
+    """Give the locals a rule talks about the names the rule uses, whatever the source calls them.
+    `roles` = [(canonical name | tuple of names, predicate(value expr) -> bool)]: the first assignment whose
+    value satisfies the predicate identifies the local(s) - a plain name, or a tuple of names of the same length -
+    and every occurrence in the function is renamed. Roles are applied one after the other, so a later predicate
+    may speak about the canonical names of earlier ones. A local that already carries the canonical name, a role
+    nobody plays, or a canonical name that is taken by another variable leave the function as it is."""
+    import copy
+
+    cur = fi
+    for canon, pred in roles:
+        names = (canon,) if isinstance(canon, str) else tuple(canon)
+        taken = {x.id for x in ast.walk(cur.node) if isinstance(x, ast.Name)} | set(cur.params)
+        mapping: dict = {}
+        # statements in document order (tuple assignments may have been split into consecutive plain ones)
+        stmts = [st for st in ast.walk(cur.node) if isinstance(st, ast.Assign) and len(st.targets) == 1]
+        stmts.sort(key=lambda st: (getattr(st, "lineno", 0), getattr(st, "col_offset", 0)))
+        hits = []
+        for st in stmts:
+            try:
+                ok = pred(st.value)
+            except Exception:  # noqa: BLE001
+                ok = False
+            if ok:
+                hits.append(st)
+        olds = None
+        for h in hits:  # the first assignment of the right arity
+            t = h.targets[0]
+            cand = [t.id] if isinstance(t, ast.Name) else [e.id for e in t.elts] if isinstance(t, (ast.Tuple, ast.List)) and all(isinstance(e, ast.Name) for e in t.elts) else None
+            if cand is not None and len(cand) == len(names):
+                olds = cand
+                break
+        if olds is None:
+            continue
+        for o, c in zip(olds, names):
+            if o != c and c not in taken and o not in cur.params:
+                mapping[o] = c
+                taken.add(c)
+        if not mapping:
+            continue
+
+        class R(ast.NodeTransformer):
+            def visit_Name(self, n: ast.Name):
+                if n.id in mapping:
+                    return ast.copy_location(ast.Name(id=mapping[n.id], ctx=n.ctx), n)
+                return n
+
+        node = R().visit(copy.deepcopy(cur.node))
+        cur = FuncInfo(cur.module, cur.qual, ast.fix_missing_locations(node), cur.cls)
+    return cur
+
+
+def _u(e) -> str:
+    return unparse(e)
+
+
+def _call_to(e, *names) -> bool:
+    return isinstance(e, ast.Call) and _u(e.func).split(".")[-1] in names
+
+
+# function -> [(name(s) the rules use, how the local is recognised by its definition)]; one line of reason each
+LOCAL_ROLES = {
+    # the open dataset of the file being created
+    "out_netcdf:Output.create_netcdf": [
+        ("nc", lambda v: _call_to(v, "Dataset")),
+        # the dimensions of the instance variables (one of two literal tuples, chosen by the layout)
+        ("instance_dim", lambda v: isinstance(v, ast.Tuple) and all(isinstance(e, ast.Constant) and e.value in ("time", "particle", "particle_instance") for e in v.elts) and len(v.elts) >= 1),
+    ],
+    "out_netcdf:Output.write": [
+        # number of particles of the record, cursor of the sparse record, its end
+        ("count", lambda v: _u(v) == "len(state)"),
+        ("start", lambda v: _u(v) == "self.local_instance_count"),
+        ("end", lambda v: isinstance(v, ast.BinOp) and isinstance(v.op, ast.Add) and {"count", "start"} >= {x.id for x in ast.walk(v) if isinstance(x, ast.Name)} and len({x.id for x in ast.walk(v) if isinstance(x, ast.Name)}) == 2),
+        # the column mask of the dense layout
+        ("has_value", lambda v: _call_to(v, "full", "zeros", "empty") and "len(state)" in _u(v)),
+        # converted positions of the record
+        (("lon", "lat"), lambda v: _call_to(v, "xy2ll")),
+    ],
+    "timekeeper:TimeKeeper.__init__": [("duration", lambda v: _u(v) in ("self.stop_time - self.start_time",))],
+    "main:main": [
+        ("model", lambda v: isinstance(v, ast.Call) and _u(v.func) == "Model"),
+        ("logger", lambda v: _call_to(v, "getLogger")),
+        ("config", lambda v: isinstance(v, ast.Call) and _u(v.func) == "configure"),
+    ],
+    "configure:configure": [
+        ("confile", lambda v: isinstance(v, ast.Call) and _u(v.func) == "Path"),
+        ("config", lambda v: _call_to(v, "safe_load", "load") and ("yaml" in _u(v) or "toml" in _u(v))),
+        ("version", lambda v: ".get('version'" in _u(v)),
+    ],
+    "release:ParticleReleaser.clean_position": [
+        ("df", lambda v: _u(v) == "self._df"),
+        (("X", "Y"), lambda v: _call_to(v, "ll2xy")),
+    ],
+    "ROMS:Grid.__init__": [
+        ("ncid", lambda v: _call_to(v, "Dataset")),
+        ("shape", lambda v: _u(v).endswith(".shape") and "variables['h']" in _u(v) and False),  # (only when not unpacked directly)
+        (("jmax0", "imax0"), lambda v: (_u(v).endswith(".shape") and "variables['h']" in _u(v)) or (isinstance(v, ast.Name) and v.id.startswith("shape"))),
+        ("limits", lambda v: "subgrid" in _u(v) and isinstance(v, (ast.IfExp, ast.Call, ast.List))),
+    ],
+    "ROMS:forcing_steps": [
+        (("all_frames", "num_frames"), lambda v: _call_to(v, "scan_file_times")),
+        ("steps", lambda v: isinstance(v, ast.ListComp) and "time2step" in _u(v)),
+        ("time0", lambda v: "all_frames[0]" in _u(v)),
+        ("time1", lambda v: "all_frames[-1]" in _u(v)),
+    ],
+    "ROMS:Forcing._read_velocity": [("frame", lambda v: _u(v).startswith("self.frame_idx["))],
+    "ROMS:Forcing._read_field": [("frame", lambda v: _u(v).startswith("self.frame_idx["))],
+    # the unstretched coordinate of the level arrays
+    "ROMS:s_stretch": [("S", lambda v: "np.arange(" in _u(v) or "np.linspace(" in _u(v))],
+    "ROMS:sdepth": [("S", lambda v: "np.arange(" in _u(v) or "np.linspace(" in _u(v))],
+    "out_netcdf:Output.create_netcdf_": [],
+    "configure:configure_": [],
+    "sample:bilin_inv": [
+        # the iterates and their cell / fraction
+        ("x", lambda v: "0.5 * imax" in _u(v) or "imax / 2" in _u(v) or "imax * 0.5" in _u(v)),
+        ("y", lambda v: "0.5 * jmax" in _u(v) or "jmax / 2" in _u(v) or "jmax * 0.5" in _u(v)),
+        ("i", lambda v: _u(v).startswith("x.astype(")),
+        ("j", lambda v: _u(v).startswith("y.astype(")),
+        ("p", lambda v: _u(v) == "x - i"),
+        ("q", lambda v: _u(v) == "y - j"),
+    ],
+    "sample:sample2D": [(("jmax", "imax"), lambda v: _u(v) == "F.shape")],
+    "sample:sample2D2": [(("jmax", "imax"), lambda v: _u(v) == "F.shape")],
+    "warm_start:warm_start": [
+        ("wvars", lambda v: "warm_start_variables" in _u(v) and "'pid'" in _u(v)),
+    ],
+}
 
 
 def canon_compare_text(e: ast.expr) -> str:
